@@ -1,4 +1,4 @@
-CONSTANTS B = 4  MAXB = 8  CursorRule = "terminator"  MaxFrames = 1  MaxBody = 7  MaxExtra = 1
+CONSTANTS B = 4  MAXB = 12  CursorRule = "terminator"  MaxFrames = 1  MaxBody = 7  MaxExtra = 1
           MaxCancels = 2  MaxHist = 14
 SPECIFICATION HSpec
 INVARIANT Export
